@@ -153,6 +153,7 @@ DoBase(sc, st0, a) ==
          [] a = "panic-str"     -> Panic(st, "other")
          [] a = "panic-int"     -> Panic(st, "other")
          [] a = "panic-nilerr"  -> Panic(st, "other")       \* a nil *Error is not an error value
+         [] a = "panic-nil"     -> Panic(st, "other")       \* panic(nil), whether or not recover() reports it as nil
          [] OTHER               -> Panic(st, "unknown-step")
 
 \* "try-x": the handler performs step x and recovers a panic it raises; the request object stays in use
